@@ -162,68 +162,72 @@ class STIXPatternVisitorForSTIX2():
             else:
                 return self.instantiate("AndBooleanExpression", [children[0], children[2]])
 
+    def _prop_test_parts(self, children):
+        """
+        Split the children of a "propTest" parse tree node, i.e.
+        <object path> [NOT] <operator> <literal>.
+
+        :return: A 4-tuple: object path, operator token type, literal, and
+            whether the NOT keyword was present
+        """
+        has_not = len(children) > 3
+        operator = children[2 if has_not else 1].symbol.type
+        literal = children[3 if has_not else 2]
+        return children[0], operator, literal, has_not
+
     # Visit a parse tree produced by STIXPatternParser#propTestEqual.
     def visitPropTestEqual(self, ctx):
         children = self.visitChildren(ctx)
-        operator = children[1].symbol.type
-        negated = operator != self.parser_class.EQ
+        path, operator, literal, has_not = self._prop_test_parts(children)
+        # "NOT !=" is a double negative
+        negated = (operator != self.parser_class.EQ) != has_not
         return self.instantiate(
-            "EqualityComparisonExpression", children[0], children[3 if len(children) > 3 else 2],
-            negated,
+            "EqualityComparisonExpression", path, literal, negated,
         )
 
     # Visit a parse tree produced by STIXPatternParser#propTestOrder.
     def visitPropTestOrder(self, ctx):
         children = self.visitChildren(ctx)
-        operator = children[1].symbol.type
+        path, operator, literal, has_not = self._prop_test_parts(children)
         if operator == self.parser_class.GT:
-            return self.instantiate(
-                "GreaterThanComparisonExpression", children[0],
-                children[3 if len(children) > 3 else 2], False,
-            )
+            klass_name = "GreaterThanComparisonExpression"
         elif operator == self.parser_class.LT:
-            return self.instantiate(
-                "LessThanComparisonExpression", children[0],
-                children[3 if len(children) > 3 else 2], False,
-            )
+            klass_name = "LessThanComparisonExpression"
         elif operator == self.parser_class.GE:
-            return self.instantiate(
-                "GreaterThanEqualComparisonExpression", children[0],
-                children[3 if len(children) > 3 else 2], False,
-            )
-        elif operator == self.parser_class.LE:
-            return self.instantiate(
-                "LessThanEqualComparisonExpression", children[0],
-                children[3 if len(children) > 3 else 2], False,
-            )
+            klass_name = "GreaterThanEqualComparisonExpression"
+        else:
+            klass_name = "LessThanEqualComparisonExpression"
+        return self.instantiate(klass_name, path, literal, has_not)
 
     # Visit a parse tree produced by STIXPatternParser#propTestSet.
     def visitPropTestSet(self, ctx):
         children = self.visitChildren(ctx)
-        return self.instantiate("InComparisonExpression", children[0], children[3 if len(children) > 3 else 2], False)
+        path, _, literal, has_not = self._prop_test_parts(children)
+        return self.instantiate("InComparisonExpression", path, literal, has_not)
 
     # Visit a parse tree produced by STIXPatternParser#propTestLike.
     def visitPropTestLike(self, ctx):
         children = self.visitChildren(ctx)
-        return self.instantiate("LikeComparisonExpression", children[0], children[3 if len(children) > 3 else 2], False)
+        path, _, literal, has_not = self._prop_test_parts(children)
+        return self.instantiate("LikeComparisonExpression", path, literal, has_not)
 
     # Visit a parse tree produced by STIXPatternParser#propTestRegex.
     def visitPropTestRegex(self, ctx):
         children = self.visitChildren(ctx)
-        return self.instantiate(
-            "MatchesComparisonExpression", children[0], children[3 if len(children) > 3 else 2],
-            False,
-        )
+        path, _, literal, has_not = self._prop_test_parts(children)
+        return self.instantiate("MatchesComparisonExpression", path, literal, has_not)
 
     # Visit a parse tree produced by STIXPatternParser#propTestIsSubset.
     def visitPropTestIsSubset(self, ctx):
         children = self.visitChildren(ctx)
-        return self.instantiate("IsSubsetComparisonExpression", children[0], children[3 if len(children) > 3 else 2])
+        path, _, literal, has_not = self._prop_test_parts(children)
+        return self.instantiate("IsSubsetComparisonExpression", path, literal, has_not)
 
     # Visit a parse tree produced by STIXPatternParser#propTestIsSuperset.
     def visitPropTestIsSuperset(self, ctx):
         children = self.visitChildren(ctx)
-        return self.instantiate("IsSupersetComparisonExpression", children[0], children[3 if len(children) > 3 else 2])
+        path, _, literal, has_not = self._prop_test_parts(children)
+        return self.instantiate("IsSupersetComparisonExpression", path, literal, has_not)
 
     # Visit a parse tree produced by STIXPatternParser#propTestParen.
     def visitPropTestParen(self, ctx):
